@@ -610,7 +610,21 @@ pub fn family(name: &str, param: usize, ws: &Ws) -> Doc {
             let l1 = a.leaves.len() - 1;
             a.leaves.push(st(&format!("\"{pad}\\\\\""), &format!("{pad}\\")));
             let l2 = a.leaves.len() - 1;
-            Tree::Obj(vec![(0, Tree::Leaf(l1)), (1, Tree::Arr(vec![Tree::Leaf(one), Tree::Obj(vec![(0, Tree::Leaf(l2))]), Tree::Leaf(l1)])), (2, Tree::Leaf(null))])
+            // ... and an escape followed by exactly 31 / 63 bytes free of quotes and backslashes before the closing quote:
+            // when the backslash is the last byte of a chunk, whole "clean" chunks follow and the closing quote is the
+            // first byte of a chunk — a pending escape must not survive a chunk that is skipped as uninteresting
+            let clean31 = "a".repeat(31);
+            let clean63 = "b".repeat(63);
+            a.leaves.push(st(&format!("\"{pad}\\n{clean31}\""), &format!("{pad}\n{clean31}")));
+            let l3 = a.leaves.len() - 1;
+            a.leaves.push(st(&format!("\"{pad}\\t{clean63}\""), &format!("{pad}\t{clean63}")));
+            let l4 = a.leaves.len() - 1;
+            Tree::Obj(vec![
+                (0, Tree::Leaf(l1)),
+                (1, Tree::Arr(vec![Tree::Leaf(one), Tree::Obj(vec![(0, Tree::Leaf(l2))]), Tree::Leaf(l1)])),
+                (2, Tree::Leaf(null)),
+                (4, Tree::Arr(vec![Tree::Leaf(l3), Tree::Leaf(one), Tree::Obj(vec![(0, Tree::Arr(vec![Tree::Leaf(l4), Tree::Leaf(null)]))])])),
+            ])
         }
         "siblings" => Tree::Obj((0..3).map(|k| (k, Tree::Arr((0..param).map(|i| Tree::Leaf((i + k) % nleaves)).collect()))).collect()),
         "siblings-arr" => Tree::Arr((0..3).map(|k| if k == 1 { Tree::Obj(vec![(0, Tree::Arr((0..param).map(|i| Tree::Leaf(i % nleaves)).collect()))]) } else { Tree::Arr((0..param).map(|i| Tree::Leaf((i + k) % nleaves)).collect()) }).collect()),
